@@ -14,13 +14,23 @@
 //! * `"null"`: one call of the real `State::check_def_for_null_dereferences` on a state whose address
 //!   register holds a given `Data` value: the decision (`false`/`true`/`err`) and the register value
 //!   afterwards.
-use cwe_checker_lib::abstract_domain::{AbstractDomain, AbstractIdentifier, DataDomain, IntervalDomain};
+//! * `"dd"`: one call of the real `<DataDomain<IntervalDomain> as RegisterDomain>::bin_op / un_op / cast /
+//!   subpiece` on generated values (`a`, `b`; all private fields through the serde derives): the result.
+//! * `"ev"`: one call of the real `pointer_inference::State::eval` on a state built with `State::new` +
+//!   `set_register` (register values `regs`, known global addresses `globals`) and a generated
+//!   well-sized expression: the result.
+//!   `DataDomain` values of these two kinds are written as `{"size","rel":[[id index, iv]…],"abs","top"}`
+//!   with `iv = {"w","s","e","st","lo","up","d"}` (signed bounds/hints, decimal strings above 64 bit);
+//!   identifier indices are positions in the `Ord`-sorted identifier pool `id_pool()`.
+use cwe_checker_lib::abstract_domain::{
+    AbstractDomain, AbstractIdentifier, AbstractLocation, DataDomain, IntervalDomain, RegisterDomain, SizedDomain,
+};
 use cwe_checker_lib::analysis::graph::{get_program_cfg, Node};
 use cwe_checker_lib::analysis::interprocedural_fixpoint_generic::NodeValue;
 use cwe_checker_lib::analysis::pointer_inference::{Data, State as PiState};
 use cwe_checker_lib::intermediate_representation::*;
 use cwe_checker_lib::pipeline::AnalysisResults;
-use std::collections::BTreeSet;
+use std::collections::{BTreeMap, BTreeSet};
 use verif_harness::ir::*;
 use verif_harness::*;
 
@@ -674,6 +684,517 @@ fn gen_null(rng: &mut Rng, out: &mut Out) {
     emit_null(out, s, e, stride, has_abs, rel, top, rng.chance(1, 2));
 }
 
+// ------------------------------------------------------------------------------------------
+// PI-lite correspondence streams: DataDomain arithmetic ("dd") and State::eval ("ev")
+
+fn bv_signed(bits: u64, x: i128) -> Bitvector {
+    Bitvector::from_i128(x).into_resize_signed(ByteSize::new(bits / 8))
+}
+
+/// a signed value of `bits` bits as JSON: a number up to 64 bits, a decimal string above
+fn jv(bits: u64, x: i128) -> Value {
+    if bits <= 64 {
+        json!(x as i64)
+    } else {
+        json!(x.to_string())
+    }
+}
+
+fn get_i128(v: &Value) -> i128 {
+    match v {
+        Value::String(s) => s.parse().unwrap(),
+        _ => v.as_i64().unwrap() as i128,
+    }
+}
+
+/// IntervalDomain through its serde derive (all fields are private)
+fn enc_iv(i: &IntervalDomain) -> Value {
+    let j = serde_json::to_value(i).unwrap();
+    let start: Bitvector = serde_json::from_value(j["interval"]["start"].clone()).unwrap();
+    let bits = u64::from(start.bytesize()) * 8;
+    let bv = |v: &Value| -> Value {
+        if v.is_null() {
+            Value::Null
+        } else {
+            let b: Bitvector = serde_json::from_value(v.clone()).unwrap();
+            jv(bits, b.try_to_i128().unwrap())
+        }
+    };
+    json!({
+        "w": bits,
+        "s": bv(&j["interval"]["start"]),
+        "e": bv(&j["interval"]["end"]),
+        "st": j["interval"]["stride"],
+        "lo": bv(&j["widening_lower_bound"]),
+        "up": bv(&j["widening_upper_bound"]),
+        "d": j["widening_delay"],
+    })
+}
+
+fn dec_iv(v: &Value) -> IntervalDomain {
+    let w = v["w"].as_u64().unwrap();
+    let bv = |x: &Value| -> Value {
+        if x.is_null() {
+            Value::Null
+        } else {
+            serde_json::to_value(bv_signed(w, get_i128(x))).unwrap()
+        }
+    };
+    serde_json::from_value(json!({
+        "interval": {"start": bv(&v["s"]), "end": bv(&v["e"]), "stride": v["st"]},
+        "widening_upper_bound": bv(&v["up"]),
+        "widening_lower_bound": bv(&v["lo"]),
+        "widening_delay": v["d"],
+    }))
+    .unwrap()
+}
+
+/// The identifiers used in generated `Data` values, in `Ord` order: the stack identifier and the
+/// global memory identifier of function `f0` (as `State::new` builds them) and two parameter identifiers.
+fn id_pool() -> Vec<AbstractIdentifier> {
+    let f = Tid::new("f0");
+    let mut v = vec![
+        AbstractIdentifier::from_var(f.clone(), &var("RSP", 8)),
+        AbstractIdentifier::new(f.clone(), AbstractLocation::GlobalAddress { address: 0, size: ByteSize::new(8) }),
+        AbstractIdentifier::from_var(f.clone(), &var("RDI", 8)),
+        AbstractIdentifier::from_var(f.clone(), &var("RSI", 8)),
+    ];
+    v.sort();
+    v
+}
+
+fn global_id_index() -> usize {
+    let g = AbstractIdentifier::new(Tid::new("f0"), AbstractLocation::GlobalAddress { address: 0, size: ByteSize::new(8) });
+    id_pool().iter().position(|x| *x == g).unwrap()
+}
+
+fn enc_data(d: &Data) -> Value {
+    let idv = id_pool();
+    let rel: Vec<Value> = d
+        .get_relative_values()
+        .iter()
+        .map(|(id, t)| json!([idv.iter().position(|x| x == id).map(|p| p as i64).unwrap_or(-1), enc_iv(t)]))
+        .collect();
+    json!({
+        "size": u64::from(d.bytesize()),
+        "rel": rel,
+        "abs": d.get_absolute_value().map(enc_iv),
+        "top": d.contains_top(),
+    })
+}
+
+fn dec_data(v: &Value) -> Data {
+    let idv = id_pool();
+    let mut d: Data = DataDomain::new_empty(ByteSize::new(v["size"].as_u64().unwrap()));
+    let rel: BTreeMap<AbstractIdentifier, IntervalDomain> =
+        v["rel"].as_array().unwrap().iter().map(|e| (idv[e[0].as_u64().unwrap() as usize].clone(), dec_iv(&e[1]))).collect();
+    d.set_relative_values(rel);
+    if !v["abs"].is_null() {
+        d.set_absolute_value(Some(dec_iv(&v["abs"])));
+    }
+    if v["top"].as_bool().unwrap() {
+        d.set_contains_top_flag();
+    }
+    d
+}
+
+fn smin_b(bits: u64) -> i128 {
+    -(1i128 << (bits - 1))
+}
+fn smax_b(bits: u64) -> i128 {
+    (1i128 << (bits - 1)) - 1
+}
+
+/// a signed value of `bits` (<= 64) bits, biased towards the boundaries, the NULL window and small numbers
+fn gen_sval(rng: &mut Rng, bits: u64) -> i128 {
+    let (lo, hi) = (smin_b(bits), smax_b(bits));
+    let v = match rng.below(10) {
+        0 => lo,
+        1 => hi,
+        2 => lo + rng.below(6) as i128,
+        3 => hi - rng.below(6) as i128,
+        4 | 5 => rng.range(-20, 20) as i128,
+        6 => 8 * rng.range(-16, 16) as i128,
+        7 => rng.range(-1100, 1100) as i128,
+        _ => {
+            let x = rng.next() as i64;
+            (if bits >= 64 { x } else { (x << (64 - bits)) >> (64 - bits) }) as i128
+        }
+    };
+    v.clamp(lo, hi)
+}
+
+/// a well-formed IntervalDomain (stride divides the length, 0 iff singleton, hints in range)
+fn gen_iv(rng: &mut Rng, bits: u64) -> Value {
+    let (lo, hi) = (smin_b(bits), smax_b(bits));
+    if rng.chance(1, 20) {
+        return json!({"w": bits, "s": jv(bits, lo), "e": jv(bits, hi), "st": 1, "lo": null, "up": null, "d": 0});
+    }
+    let s = gen_sval(rng, bits);
+    let st: u64 = match rng.below(10) {
+        0 | 1 | 2 | 3 => 0,
+        4 | 5 => 1,
+        6 => 2,
+        7 => 8,
+        8 => 1 + rng.below(16),
+        _ => 1 + rng.below(if bits == 8 { 100 } else { 100_000 }),
+    };
+    let room = (hi - s) as u128;
+    let maxn = if st == 0 { 0 } else { room / st as u128 };
+    let n: u128 = if maxn == 0 {
+        0
+    } else {
+        let cap = maxn.min(if rng.chance(2, 3) { 5 } else { 300 }) as u64;
+        rng.below(cap + 1) as u128
+    };
+    let (s, e, st) = if n == 0 || st == 0 { (s, s, 0) } else { (s, s + (st as u128 * n) as i128, st) };
+    let hint = |rng: &mut Rng, base: i128, below: bool| -> Value {
+        match rng.below(5) {
+            0 | 1 | 2 => Value::Null,
+            3 => jv(bits, gen_sval(rng, bits)),
+            _ => {
+                let d = 1 + rng.below(60) as i128;
+                let x = if below { base - d } else { base + d };
+                if x >= lo && x <= hi {
+                    jv(bits, x)
+                } else {
+                    Value::Null
+                }
+            }
+        }
+    };
+    let lo_h = hint(rng, s, true);
+    let up_h = hint(rng, e, false);
+    let d = match rng.below(5) {
+        0 | 1 | 2 => 0,
+        3 => rng.below(10),
+        _ => u64::MAX - rng.below(3),
+    };
+    json!({"w": bits, "s": jv(bits, s), "e": jv(bits, e), "st": st, "lo": lo_h, "up": up_h, "d": d})
+}
+
+/// a `Data` value of the given byte size; the shapes `bin_op` distinguishes are all frequent
+fn gen_data(rng: &mut Rng, size: u64) -> Value {
+    let bits = 8 * size;
+    let n_ids = id_pool().len() as u64;
+    let one_rel = |rng: &mut Rng| json!([rng.below(n_ids), gen_iv(rng, bits)]);
+    match rng.below(16) {
+        0 => json!({"size": size, "rel": [], "abs": null, "top": true}),
+        1 => json!({"size": size, "rel": [], "abs": null, "top": false}),
+        2..=5 => json!({"size": size, "rel": [], "abs": gen_iv(rng, bits), "top": false}),
+        6 => json!({"size": size, "rel": [], "abs": gen_iv(rng, bits), "top": true}),
+        7..=10 => json!({"size": size, "rel": [one_rel(rng)], "abs": null, "top": false}),
+        11 => json!({"size": size, "rel": [one_rel(rng)], "abs": null, "top": true}),
+        12 => json!({"size": size, "rel": [one_rel(rng)], "abs": gen_iv(rng, bits), "top": rng.chance(1, 4)}),
+        _ => {
+            let mut rel = Vec::new();
+            for i in 0..n_ids {
+                if rng.chance(1, 2) {
+                    rel.push(json!([i, gen_iv(rng, bits)]));
+                }
+            }
+            let abs = if rng.chance(1, 2) { gen_iv(rng, bits) } else { Value::Null };
+            json!({"size": size, "rel": rel, "abs": abs, "top": rng.chance(1, 4)})
+        }
+    }
+}
+
+fn op_from_name<T: serde::de::DeserializeOwned>(name: &str) -> T {
+    serde_json::from_value(Value::String(name.to_string())).expect("operation name")
+}
+
+const BIN_SAME: [&str; 18] = [
+    "IntAdd", "IntSub", "IntAnd", "IntOr", "IntXOr", "IntMult", "IntDiv", "IntRem", "IntSDiv", "IntSRem", "IntEqual",
+    "IntNotEqual", "IntLess", "IntSLess", "IntLessEqual", "IntSLessEqual", "IntCarry", "IntSCarry",
+];
+const BIN_OTHER_SAME: [&str; 9] =
+    ["IntSBorrow", "FloatEqual", "FloatNotEqual", "FloatLess", "FloatLessEqual", "FloatAdd", "FloatSub", "FloatMult", "FloatDiv"];
+const BIN_BOOL: [&str; 3] = ["BoolAnd", "BoolOr", "BoolXOr"];
+const BIN_SHIFT: [&str; 3] = ["IntLeft", "IntRight", "IntSRight"];
+const UN_OPS: [&str; 10] =
+    ["IntNegate", "Int2Comp", "BoolNegate", "FloatNegate", "FloatAbs", "FloatSqrt", "FloatCeil", "FloatFloor", "FloatRound", "FloatNaN"];
+
+fn eval_dd(op: &Value, a: &Value, b: &Value) -> Value {
+    let (op, a, b) = (op.clone(), a.clone(), b.clone());
+    let r = catch(move || {
+        let x = dec_data(&a);
+        let res = match op["k"].as_str().unwrap() {
+            "bin" => x.bin_op(op_from_name::<BinOpType>(op["op"].as_str().unwrap()), &dec_data(&b)),
+            "un" => x.un_op(op_from_name::<UnOpType>(op["op"].as_str().unwrap())),
+            "cast" => x.cast(op_from_name::<CastOpType>(op["op"].as_str().unwrap()), ByteSize::new(op["size"].as_u64().unwrap())),
+            "sub" => x.subpiece(ByteSize::new(op["low"].as_u64().unwrap()), ByteSize::new(op["size"].as_u64().unwrap())),
+            k => panic!("unknown op kind {}", k),
+        };
+        enc_data(&res)
+    });
+    match r {
+        Ok(v) => v,
+        Err(p) => Value::String(format!("panic:{}", p.replace(' ', "_"))),
+    }
+}
+
+fn shape(d: &Value) -> &'static str {
+    let nrel = d["rel"].as_array().map(|a| a.len()).unwrap_or(0);
+    let abs = !d["abs"].is_null();
+    let top = d["top"].as_bool().unwrap_or(false);
+    match (nrel, abs, top) {
+        (0, false, false) => "empty",
+        (0, false, true) => "top",
+        (0, true, false) => "abs",
+        (0, true, true) => "abs+top",
+        (1, false, false) => "ptr",
+        (1, _, _) => "ptr+x",
+        _ => "ptrs",
+    }
+}
+
+fn emit_dd(out: &mut Out, op: &Value, a: &Value, b: &Value) {
+    let r = eval_dd(op, a, b);
+    let opname = op.get("op").and_then(|o| o.as_str()).unwrap_or("Subpiece").to_string();
+    if r.is_string() {
+        out.count("dd:panic");
+    } else {
+        out.count(&format!("dd:{}", op["k"].as_str().unwrap()));
+        if op["k"] == "bin" && (opname == "IntAdd" || opname == "IntSub") {
+            out.count(&format!("dd:{}:{}:{}", opname, shape(a), shape(b)));
+        }
+    }
+    let line = json!({"q": "dd", "op": op, "a": a, "b": b, "impl": r}).to_string();
+    let key = format!("{}|{}|{}", op, a, b);
+    let nontrivial = shape(a) != "empty" && shape(a) != "top";
+    out.case(&line, if nontrivial { Some(&key) } else { None });
+}
+
+fn gen_dd(rng: &mut Rng, out: &mut Out) {
+    let size = *rng.pick(&[8u64, 8, 8, 8, 4, 2, 1]);
+    match rng.below(20) {
+        0..=12 => {
+            // binary operation, half of them pointer arithmetic
+            let (name, sa, sb): (&str, u64, u64) = match rng.below(20) {
+                0..=5 => ("IntAdd", size, size),
+                6..=10 => ("IntSub", size, size),
+                11..=14 => (*rng.pick(&BIN_SAME), size, size),
+                15 => (*rng.pick(&BIN_OTHER_SAME), size, size),
+                16 => (*rng.pick(&BIN_BOOL), 1, 1),
+                17 | 18 => (*rng.pick(&BIN_SHIFT), size, *rng.pick(&[1u64, 4, 8])),
+                _ => ("Piece", size, *rng.pick(&[1u64, 2, 4, 8])),
+            };
+            let a = gen_data(rng, sa);
+            let b = match rng.below(8) {
+                0 => a.clone(),
+                1 if shape(&a) == "ptr" => {
+                    // a pointer to the same target with another offset
+                    let id = a["rel"][0][0].clone();
+                    json!({"size": sb, "rel": [[id, gen_iv(rng, 8 * sb)]], "abs": null, "top": false})
+                }
+                _ => gen_data(rng, sb),
+            };
+            emit_dd(out, &json!({"k": "bin", "op": name}), &a, &b);
+        }
+        13 | 14 => {
+            let name = *rng.pick(&UN_OPS);
+            let sa = if name == "BoolNegate" { 1 } else { size };
+            let a = gen_data(rng, sa);
+            emit_dd(out, &json!({"k": "un", "op": name}), &a, &Value::Null);
+        }
+        15 | 16 => {
+            let name = *rng.pick(&["IntZExt", "IntZExt", "IntSExt", "IntSExt", "PopCount", "LzCount", "Int2Float", "Float2Float", "Trunc"]);
+            let to = *rng.pick(&[1u64, 2, 4, 8, 16]);
+            let from = if name == "IntZExt" || name == "IntSExt" { *rng.pick(&[1u64, 2, 4, 8]).min(&to) } else { size };
+            let a = gen_data(rng, from);
+            emit_dd(out, &json!({"k": "cast", "op": name, "size": to}), &a, &Value::Null);
+        }
+        _ => {
+            let a = gen_data(rng, size);
+            let (low, sz) = if rng.chance(1, 4) {
+                (0, size)
+            } else {
+                let sz = 1 + rng.below(size);
+                (rng.below(size - sz + 1), sz)
+            };
+            emit_dd(out, &json!({"k": "sub", "low": low, "size": sz}), &a, &Value::Null);
+        }
+    }
+}
+
+// registers of the "ev" stream: (name, size)
+const EV_REGS8: [&str; 6] = ["RSP", "RDI", "RAX", "RBX", "RCX", "RDX"];
+const EV_REGS4: [&str; 2] = ["E4A", "E4B"];
+const EV_REGS2: [&str; 1] = ["H2A"];
+const EV_REGS1: [&str; 3] = ["ZF", "CF", "B1A"];
+
+fn ev_reg(rng: &mut Rng, size: u64) -> Expression {
+    let name = match size {
+        8 => *rng.pick(&EV_REGS8),
+        4 => *rng.pick(&EV_REGS4),
+        2 => *rng.pick(&EV_REGS2),
+        _ => *rng.pick(&EV_REGS1),
+    };
+    e_var(name, size)
+}
+
+/// a well-sized expression of `size` bytes
+fn gen_ev_expr(rng: &mut Rng, size: u64, depth: u32, globals: &[u64]) -> Expression {
+    let leaf = |rng: &mut Rng| -> Expression {
+        match rng.below(10) {
+            0..=5 => ev_reg(rng, size),
+            6 if size == 8 && !globals.is_empty() => e_const(*rng.pick(globals), 8),
+            9 => e_unknown("unk", size),
+            _ => {
+                let bits = 8 * size;
+                let v = gen_sval(rng, bits) as i64 as u64;
+                e_const(if bits >= 64 { v } else { v & ((1u64 << bits) - 1) }, size)
+            }
+        }
+    };
+    if depth == 0 || rng.chance(1, 4) {
+        return leaf(rng);
+    }
+    let other = |rng: &mut Rng| *rng.pick(&[1u64, 2, 4, 8]);
+    if size == 1 && rng.chance(2, 3) {
+        // boolean results
+        return match rng.below(6) {
+            0 | 1 | 2 => {
+                let s = other(rng);
+                let op = op_from_name::<BinOpType>(*rng.pick(&[
+                    "IntEqual", "IntNotEqual", "IntLess", "IntSLess", "IntLessEqual", "IntSLessEqual", "IntCarry", "IntSCarry", "IntSBorrow",
+                ]));
+                e_bin(op, gen_ev_expr(rng, s, depth - 1, globals), gen_ev_expr(rng, s, depth - 1, globals))
+            }
+            3 => {
+                let op = op_from_name::<BinOpType>(*rng.pick(&BIN_BOOL));
+                e_bin(op, gen_ev_expr(rng, 1, depth - 1, globals), gen_ev_expr(rng, 1, depth - 1, globals))
+            }
+            4 => e_un(UnOpType::BoolNegate, gen_ev_expr(rng, 1, depth - 1, globals)),
+            _ => {
+                let s = other(rng);
+                e_un(UnOpType::FloatNaN, gen_ev_expr(rng, s, depth - 1, globals))
+            }
+        };
+    }
+    match rng.below(24) {
+        0..=5 => e_bin(BinOpType::IntAdd, gen_ev_expr(rng, size, depth - 1, globals), gen_ev_expr(rng, size, depth - 1, globals)),
+        6..=10 => e_bin(BinOpType::IntSub, gen_ev_expr(rng, size, depth - 1, globals), gen_ev_expr(rng, size, depth - 1, globals)),
+        11 | 12 => {
+            let op = op_from_name::<BinOpType>(*rng.pick(&["IntAnd", "IntOr", "IntXOr", "IntMult", "IntDiv", "IntRem", "IntSDiv", "IntSRem", "FloatAdd"]));
+            e_bin(op, gen_ev_expr(rng, size, depth - 1, globals), gen_ev_expr(rng, size, depth - 1, globals))
+        }
+        13 => {
+            // x XOR x
+            let x = gen_ev_expr(rng, size, depth - 1, globals);
+            e_bin(BinOpType::IntXOr, x.clone(), x)
+        }
+        14 | 15 => {
+            let op = op_from_name::<BinOpType>(*rng.pick(&BIN_SHIFT));
+            let sa = other(rng);
+            let amount = if rng.chance(3, 4) { e_const(rng.below(70), sa) } else { gen_ev_expr(rng, sa, depth - 1, globals) };
+            e_bin(op, gen_ev_expr(rng, size, depth - 1, globals), amount)
+        }
+        16 | 17 => e_un(*rng.pick(&[UnOpType::Int2Comp, UnOpType::IntNegate, UnOpType::FloatAbs]), gen_ev_expr(rng, size, depth - 1, globals)),
+        18 | 19 => {
+            let from = *rng.pick(&[1u64, 2, 4, 8]);
+            let from = from.min(size);
+            let op = *rng.pick(&[CastOpType::IntZExt, CastOpType::IntSExt]);
+            e_cast(op, size, gen_ev_expr(rng, from, depth - 1, globals))
+        }
+        20 => {
+            let from = other(rng);
+            e_cast(*rng.pick(&[CastOpType::PopCount, CastOpType::LzCount, CastOpType::Int2Float]), size, gen_ev_expr(rng, from, depth - 1, globals))
+        }
+        21 | 22 => {
+            let from = *rng.pick(&[1u64, 2, 4, 8]);
+            let from = from.max(size);
+            let low = rng.below(from - size + 1);
+            let low = if rng.chance(1, 2) { 0 } else { low };
+            e_sub(low, size, gen_ev_expr(rng, from, depth - 1, globals))
+        }
+        _ => {
+            if size >= 2 {
+                let hi = size / 2;
+                e_bin(BinOpType::Piece, gen_ev_expr(rng, hi, depth - 1, globals), gen_ev_expr(rng, size - hi, depth - 1, globals))
+            } else {
+                leaf(rng)
+            }
+        }
+    }
+}
+
+fn eval_ev(regs: &Value, globals: &Value, expr: &Expression) -> Value {
+    let (regs, globals, expr) = (regs.clone(), globals.clone(), expr.clone());
+    let r = catch(move || {
+        let gl: BTreeSet<u64> = globals.as_array().unwrap().iter().map(|g| g.as_u64().unwrap()).collect();
+        let sp = var("RSP", 8);
+        let mut st = PiState::new(&sp, Tid::new("f0"), gl);
+        // `State::new` binds the stack register; the generated state decides about it
+        st.set_register(&sp, Data::new_top(ByteSize::new(8)));
+        for e in regs.as_array().unwrap() {
+            let v = var(e[0].as_str().unwrap(), e[1].as_u64().unwrap());
+            st.set_register(&v, dec_data(&e[2]));
+        }
+        assert_eq!(id_pool()[global_id_index()], st.get_global_mem_id());
+        enc_data(&st.eval(&expr))
+    });
+    match r {
+        Ok(v) => v,
+        Err(p) => Value::String(format!("panic:{}", p.replace(' ', "_"))),
+    }
+}
+
+fn emit_ev(out: &mut Out, regs: &Value, globals: &Value, expr: &Expression, seed: u64) {
+    let r = eval_ev(regs, globals, expr);
+    if r.is_string() {
+        out.count("ev:panic");
+    } else {
+        out.count(&format!("ev:result-{}", shape(&r)));
+    }
+    let ej = serde_json::to_value(expr).unwrap();
+    let line = json!({"q": "ev", "regs": regs, "globals": globals, "gid": global_id_index(), "expr": ej, "seed": seed, "impl": r}).to_string();
+    let key = format!("{}|{}|{}", regs, globals, ej);
+    let nontrivial = !r.is_string() && shape(&r) != "top";
+    out.case(&line, if nontrivial { Some(&key) } else { None });
+}
+
+fn gen_ev(rng: &mut Rng, out: &mut Out) {
+    let globals: Vec<u64> = match rng.below(3) {
+        0 => vec![],
+        1 => vec![0x601000, 0x601008],
+        _ => vec![0x601000, 8, (-8i64) as u64, 0x7fff_ffff_ffff_ffff],
+    };
+    let pool = id_pool();
+    let sp_idx = pool.iter().position(|x| *x == AbstractIdentifier::from_var(Tid::new("f0"), &var("RSP", 8))).unwrap();
+    let rdi_idx = pool.iter().position(|x| *x == AbstractIdentifier::from_var(Tid::new("f0"), &var("RDI", 8))).unwrap();
+    let mut regs: Vec<Value> = Vec::new();
+    // the usual entry bindings, each present most of the time
+    if rng.chance(5, 6) {
+        let off = 8 * rng.range(-12, 2);
+        regs.push(json!(["RSP", 8, {"size": 8, "rel": [[sp_idx, {"w": 64, "s": off, "e": off, "st": 0, "lo": null, "up": null, "d": 0}]], "abs": null, "top": false}]));
+    }
+    if rng.chance(2, 3) {
+        regs.push(json!(["RDI", 8, {"size": 8, "rel": [[rdi_idx, gen_iv(rng, 64)]], "abs": null, "top": false}]));
+    }
+    for (names, size) in [(&EV_REGS8[2..], 8u64), (&EV_REGS4[..], 4), (&EV_REGS2[..], 2), (&EV_REGS1[..], 1)] {
+        for n in names {
+            if rng.chance(2, 3) {
+                let mut d = gen_data(rng, size);
+                if shape(&d) == "empty" || shape(&d) == "top" {
+                    d = json!({"size": size, "rel": [], "abs": gen_iv(rng, 8 * size), "top": false});
+                }
+                if size == 1 && rng.chance(2, 3) {
+                    // flags: 0, 1 or {0,1}
+                    let (s, e, st) = *rng.pick(&[(0, 0, 0), (1, 1, 0), (0, 1, 1)]);
+                    d = json!({"size": 1, "rel": [], "abs": {"w": 8, "s": s, "e": e, "st": st, "lo": null, "up": null, "d": 0}, "top": false});
+                }
+                regs.push(json!([n, size, d]));
+            }
+        }
+    }
+    let size = *rng.pick(&[8u64, 8, 8, 4, 2, 1]);
+    let depth = 1 + rng.below(3) as u32;
+    let expr = gen_ev_expr(rng, size, depth, &globals);
+    let seed = rng.next() >> 12;
+    emit_ev(out, &Value::Array(regs), &json!(globals), &expr, seed);
+}
+
 fn main() {
     quiet_panics();
     let args = Args::parse();
@@ -682,13 +1203,21 @@ fn main() {
         "generated single-function programs (2-7 blocks, loops and branches, register arithmetic, comparisons and flags, \
          stack loads/stores at constant offsets incl. narrow accesses and frame pointer) analysed by the real function-signature \
          + pointer-inference fixpoint; per program several concrete runs in the Lean reference interpreter; plus direct calls of \
-         State::check_def_for_null_dereferences; non-trivial = some register has a bounded value at some block start / the NULL \
-         check fired; distinct by program / by check input",
+         State::check_def_for_null_dereferences; plus direct calls of DataDomain<IntervalDomain>::bin_op/un_op/cast/subpiece on \
+         generated values (all shapes: empty, top, absolute, one/many pointers, mixtures; sizes 1-8 bytes) and of State::eval on \
+         generated register states and well-sized expressions; non-trivial = some register has a bounded value at some block \
+         start / the NULL check fired / the first operand is neither empty nor top / the evaluation result is not top; distinct \
+         by program / by input",
     );
     if let Some(lines) = args.replay_lines() {
         for line in lines {
             let v: Value = serde_json::from_str(&line).expect("replay line");
-            if v["q"] == "null" {
+            if v["q"] == "dd" {
+                emit_dd(&mut out, &v["op"], &v["a"], &v["b"]);
+            } else if v["q"] == "ev" {
+                let expr: Expression = serde_json::from_value(v["expr"].clone()).expect("expression");
+                emit_ev(&mut out, &v["regs"], &v["globals"], &expr, v["seed"].as_u64().unwrap_or(1));
+            } else if v["q"] == "null" {
                 emit_null(
                     &mut out,
                     v["s"].as_i64().unwrap(),
@@ -719,6 +1248,14 @@ fn main() {
     let n_null = args.num("nullchecks", 600, 20000);
     for _ in 0..n_null {
         gen_null(&mut rng, &mut out);
+    }
+    let n_dd = args.num("dataops", 6000, 200000);
+    for _ in 0..n_dd {
+        gen_dd(&mut rng, &mut out);
+    }
+    let n_ev = args.num("evals", 2500, 80000);
+    for _ in 0..n_ev {
+        gen_ev(&mut rng, &mut out);
     }
     out.finish();
 }
